@@ -739,3 +739,69 @@ Print Assumptions C03_generated_merge_is_model.
 Print Assumptions C03_generated_merge_inplace.
 Print Assumptions C03_generated_merge_inplace_node.
 Print Assumptions C03_generated_merge_not_node.
+
+(* ---- tie (T), second unit, continued: ops.link (the many-to-many wrapper behind `>>`) as translated on this run (py2coq_ops v3,
+   same generated file; `_check_all_nodes` is pinned by its exact source text, the callee `_link_1to1` is the generated one,
+   lifted from py into py4 by [PyColl4.py4_lift]).  node1 / node2 are [operand]s: an object, or a Sequence of objects ([OSeq];
+   a str / another Iterable is outside the representation); the hand model's lists [ls] / [rs] correspond to
+   [opnd_flat node1] / [opnd_flat node2] (a non-sequence operand is the one-element list).  [MNew V E] =
+   `Model(nodes=V, edges=E, name=name)`: the constructor call is not translated (Graph.mk_model, tie H). *)
+Section GeneratedLinkN.
+Variable ord_n : nat -> list node -> list node.
+Variable ord_e : nat -> list edge -> list edge.
+Hypothesis Hord_n : forall k s, Permutation (ord_n k s) s.
+Hypothesis Hord_e : forall k s, Permutation (ord_e k s) s.
+Variables is_model is_frozen_model is_initialized is_node : node -> bool.
+Variables attr_nodes attr_input_nodes attr_output_nodes : node -> list node.
+Variable attr_edges : node -> list edge.
+Variable dim : Type.
+Variables output_dim input_dim : node -> dim.
+Variable dim_eqb : dim -> dim -> bool.
+Let gen_linkN := Gen_ops.GenOps.link ord_n ord_e is_model is_frozen_model is_initialized is_node attr_nodes attr_input_nodes
+  attr_output_nodes attr_edges dim output_dim input_dim dim_eqb.
+Let lrepr := C03_mrepr is_model is_frozen_model is_node attr_nodes attr_input_nodes attr_output_nodes attr_edges.
+Let clash := C03_dim_clash is_initialized dim output_dim input_dim dim_eqb.
+
+(* link(node1, node2) / `a >> b`, `[a, ..] >> b`, `a >> [b, ..]`, link([..], [..]): when every element is a _Node that is a bare
+   node or a non-frozen Model and no new edge joins two initialised nodes of different dimensions, the generated link asks for
+   a NEW Model whose node list / edge list enumerate, without duplicates, exactly the node set / edge set of the model's
+   link_graph (the order of `list(<set>)` is not claimed) *)
+Theorem C03_generated_link_is_model (o1 o2 : PyColl4.operand) (name : unit) (ls rs : list value) :
+  Forall2 lrepr (PyColl4.opnd_flat o1) ls -> Forall2 lrepr (PyColl4.opnd_flat o2) rs ->
+  (forall a b, In a ls -> In b rs -> forall s r, In s (v_outs a) -> In r (v_ins b) -> clash (s, r) = false) ->
+  exists V E, gen_linkN o1 o2 name = PyColl4.Val4 (PyColl4.MNew V E) /\
+    C03_same_set V (fst (link_graph ls rs)) /\ C03_same_set E (snd (link_graph ls rs)).
+Proof. exact (Gen_ops_eq.gen_link_is_model ord_n ord_e Hord_n Hord_e is_model is_frozen_model is_initialized is_node attr_nodes
+  attr_input_nodes attr_output_nodes attr_edges dim output_dim input_dim dim_eqb o1 o2 name ls rs). Qed.
+
+(* the same error cases as the source: an element that is not a _Node: TypeError (whatever else holds);  a FrozenModel among
+   the operands / elements: TypeError *)
+Theorem C03_generated_link_not_node (o1 o2 : PyColl4.operand) (name : unit) :
+  forallb is_node (PyColl4.opnd_flat o1 ++ PyColl4.opnd_flat o2) = false -> gen_linkN o1 o2 name = PyColl4.Exc4 PyColl4.TypeError.
+Proof. exact (Gen_ops_eq.gen_link_not_node ord_n ord_e is_model is_frozen_model is_initialized is_node attr_nodes
+  attr_input_nodes attr_output_nodes attr_edges dim output_dim input_dim dim_eqb o1 o2 name). Qed.
+
+Theorem C03_generated_link_frozen (o1 o2 : PyColl4.operand) (name : unit) :
+  existsb is_frozen_model (PyColl4.opnd_flat o1 ++ PyColl4.opnd_flat o2) = true -> gen_linkN o1 o2 name = PyColl4.Exc4 PyColl4.TypeError.
+Proof. exact (Gen_ops_eq.gen_link_frozen ord_n ord_e is_model is_frozen_model is_initialized is_node attr_nodes
+  attr_input_nodes attr_output_nodes attr_edges dim output_dim input_dim dim_eqb o1 o2 name). Qed.
+End GeneratedLinkN.
+
+(* non-vacuity: object 10 is the Model {0 -> 1} (entry 0, exit 1), objects 2, 3 bare nodes, object 7 not a _Node, object 8 a
+   FrozenModel; nothing initialised: link([10, 2], 3) asks for Model(nodes=[0; 1; 3; 2], edges=[(0, 1); (1, 3); (2, 3)]);
+   link(10, [2, 7]) and link(8, 2): TypeError;  with 1 and 3 initialised and of different dimensions: ValueError *)
+Example C03_generated_linkN_example :
+  let idn := fun (_ : nat) (s : list node) => s in let ide := fun (_ : nat) (s : list edge) => s in
+  let is_model := fun n => Nat.eqb n 10 || Nat.eqb n 8 in let frozen := Nat.eqb 8 in let is_node := fun n => negb (Nat.eqb n 7) in
+  let an := fun n => if Nat.eqb n 10 then [0; 1] else [] in let ae := fun n => if Nat.eqb n 10 then [(0, 1)] else [] in
+  let ai := fun n => if Nat.eqb n 10 then [0] else [] in let ao := fun n => if Nat.eqb n 10 then [1] else [] in
+  let lk := fun init => Gen_ops.GenOps.link idn ide is_model frozen init is_node an ai ao ae nat (fun n => n) (fun _ => 0) Nat.eqb in
+  lk (fun _ => false) (PyColl4.OSeq [10; 2]) (PyColl4.ONode 3) tt = PyColl4.Val4 (PyColl4.MNew [0; 1; 3; 2] [(0, 1); (1, 3); (2, 3)]) /\
+  lk (fun _ => false) (PyColl4.ONode 10) (PyColl4.OSeq [2; 7]) tt = PyColl4.Exc4 PyColl4.TypeError /\
+  lk (fun _ => false) (PyColl4.ONode 8) (PyColl4.ONode 2) tt = PyColl4.Exc4 PyColl4.TypeError /\
+  lk (fun _ => true) (PyColl4.OSeq [10; 2]) (PyColl4.ONode 3) tt = PyColl4.Exc4 (PyColl4.Py PyColl.ValueError).
+Proof. cbv zeta. repeat split; vm_compute; reflexivity. Qed.
+
+Print Assumptions C03_generated_link_is_model.
+Print Assumptions C03_generated_link_not_node.
+Print Assumptions C03_generated_link_frozen.
